@@ -227,7 +227,7 @@ def getClassInPackage (env : Env) (classQname : String) : Except PyErr Class :=
 /-! ### types (`_create_type_string`, 684-853) -/
 
 def Lit.render : Lit → String
-  | .str s => "\"" ++ s ++ "\""
+  | .str s => escapeStringLiteral s
   | .bool true => "true"
   | .bool false => "false"
   | .none => "null"
